@@ -313,8 +313,14 @@ ELEMS = [Reading(3, 2.5), Colour.BLUE, Reading, pipelib.Sulky(4),
          # exception OBJECTS are ordinary elements (results collected with return_exceptions-style code): handed on, never raised
          ValueError('as an element'), KeyError(1), OSError(2, 'msg'), StopIteration('as an element')]
 # elements that are EQUAL (and hash alike) without being the same: each arrives as what it is
+class Frame(bytes):
+    pass
+
+
+# binary payloads of every kind: each arrives as the type it is
+BINARY = [bytearray(b'frame'), bytearray(), Frame(b'sub'), memoryview(b'mv').tobytes()]
 TWINS = [0.0, -0.0, (1, 2), (True, 2.0), (1.0, 2), decimal.Decimal('1.0'), decimal.Decimal('1.00'), (fractions.Fraction(1, 2), 0), (0.5, False), 1, True, 1.0]
-ELEMS = ELEMS + TWINS
+ELEMS = ELEMS + TWINS + BINARY
 
 
 def check(ctx):
@@ -329,6 +335,10 @@ def check(ctx):
             elems = list(TWINS)
             rng.shuffle(elems)
             n = len(elems)
+        if it == 2:
+            elems = list(BINARY) + [b'plain']
+            rng.shuffle(elems)
+            n = len(elems)
         reuse = n >= 2 and rng.random() < 0.3
         if reuse:
             # what must arrive is the content at the moment each element was handed to the sender
@@ -340,6 +350,15 @@ def check(ctx):
         case = dict(elements=[show(e) for e in elems], schedule='random', trace=' '.join(res['events']), producer_reuses_one_object=reuse)
         runs.append((case, elems, res, n >= 2 and (reuse or any(e is None or (isinstance(e, tuple) and e == (None, None)) for e in elems))))
         lines.append('net.trace %d | %s' % (n, ' '.join(res['events'])))
+    # one stream longer than any 16-bit counter (65 540 elements): complete, in order, both ends finish
+    N16 = 65540
+    res16 = run_once(list(range(N16)), lambda cand, s: cand[0])
+    case16 = dict(elements='0 .. %d' % (N16 - 1), schedule='first enabled party', n=N16)
+    ctx.case(('long-network-stream', N16), True, sample=case16)
+    ctx.count('stream_beyond_65535_elements')
+    if res16['sched_error'] or res16['errors'] or res16['received'] != list(range(N16)) or not res16['receiver_ended'] or not res16['sender_returned']:
+        ctx.fail('network-stream-not-delivered', 'a %d-element stream: received %d elements, receiver ended=%s, sender returned=%s, %s %s' % (
+            N16, len(res16['received']), res16['receiver_ended'], res16['sender_returned'], res16['sched_error'] or '', res16['errors'][:1]), case16)
     # every interleaving for small n (stateless DFS over the scheduler's choices)
     nmax = ctx.scale(2, 3)
     exhaustive = 0
